@@ -135,6 +135,10 @@ fn gen_program(u: &mut Choices, sz: Size) -> (V, V, File) {
     let doc2 = gen_cfn_doc(u, &sz);
     let msgs = u.chance(1, 2);
     let mut file = gen_wide_file(u, &doc, sz, msgs);
+    // a third of the programs capture map keys (`[ name | filter ]`): layout around the capture bar
+    if u.chance(1, 3) {
+        add_capture_idiom(u, &mut file, &doc);
+    }
     // literals with maps / bools / nulls make the value spellings matter
     if u.chance(1, 2) {
         file.lets.push(Let { name: "litv".into(), value: Expr::Lit(Lit::V(V::Map(vec![("k-1".into(), V::Bool(true)), ("j".into(), V::List(vec![V::Null, V::Bool(false), V::s("it's")]))]))) });
